@@ -73,3 +73,28 @@ func init() {
 		},
 	})
 }
+
+func init() {
+	registerBatch(&BatchCheck{
+		ID: "C04", Mode: "c04",
+		Families: []*ProgCheck{{Family: "F-tables", Synth: fam.TablesJSON, Bound: map[string]int{"quick": 1, "thorough": 2}}},
+		Targets:  []string{prog.TGounions, prog.TSQL},
+		Keep: func(p *prog.Program) bool {
+			// a column tagged gomacro:"ignore" gets no union wrappers (ignored by gounions) but is still a jsonb column
+			for _, f := range p.Features {
+				if strings.Contains(f, `gomacro:"ignore"`) {
+					return false
+				}
+			}
+			return true
+		},
+		Budget:   sharedBudget(2, 3),
+		Deadline: map[string]time.Duration{"quick": 8 * time.Minute, "thorough": 50 * time.Minute},
+		Rule:     "programs of F-tables with a jsonb column, compiled with their union wrappers; for every value of the column's Go type within the shared deviation budget the CHECK's validation function is interpreted (vpg) on the document json.Marshal emits, then on every single-point corruption of it (unknown key at every closed object, every node replaced by each other JSON kind, unknown Kind, non-member enum value, fixed array length +-1); non-trivial = at least one document was evaluated",
+		Assumptions: []string{
+			"vpg interprets the PL/pgSQL subset of the templates with PostgreSQL's three-valued logic and errors, written from the manual (no PostgreSQL exists here); AND/OR evaluate left to right with short-circuit",
+			"a CHECK is violated iff it evaluates to FALSE; an error also rejects the row",
+			"null is not counted as a wrong kind where the Go type is a slice or a map",
+		},
+	})
+}
